@@ -352,6 +352,62 @@ func TestC16_Rapid(t *testing.T) {
 	})
 }
 
+// TestC16_LongRuns: a long run of every URI-significant symbol (and a few two/three-symbol units) at
+// every structural position of every scheme. Any loop or recursion whose depth or cost grows with
+// the number of repetitions of one symbol shows up here: the worker runs with a 1 MiB stack limit
+// (an implementation that recurses once per input symbol - a few dozen bytes of stack each -
+// overflows it at 64 KiB of input just as it would overflow Go's default limit on a proportionally
+// longer input) and under the per-input time budget.
+func TestC16_LongRuns(t *testing.T) {
+	rec := evid.For("C16")
+	c16Notes(rec)
+	n := evid.Pick(1<<16, 1<<20)
+	rec.Note("long_runs", fmt.Sprintf("runs of %d bytes of each of %d units at 9 structural positions x 4 schemes", n, len(c16Alphabet)+8))
+	units := append(append([]string(nil), c16Alphabet...), "&=", "=&", "a&", "&a=", "%41", "%2", "::", "[]")
+	positions := []struct{ pre, post string }{
+		{"", ""}, {"h", ""}, {"h:", ""}, {"h:1", ""}, {"h?", ""}, {"h?transport=udp", ""}, {"h?transport=", ""}, {"[", "]"}, {"[::1", "]:3478"},
+	}
+	shard, nshards := evid.Shard()
+	var w *worker
+	defer func() {
+		if w != nil {
+			w.stop()
+		}
+	}()
+	idx := 0
+	for _, scheme := range c16Prefixes[:4] {
+		for _, pos := range positions {
+			for _, u := range units {
+				idx++
+				if idx%nshards != shard {
+					continue
+				}
+				in := scheme + pos.pre + strings.Repeat(u, n/len(u)) + pos.post
+				rec.Case("long-run", evid.NewH().Str(scheme).Str(pos.pre).Str(u).Sum(), true, func() any { return c16Case{Input: truncate(in)} })
+				bad, why, err := checkBatch(&w, []string{in})
+				if err != nil {
+					t.Fatalf("harness: %v", err)
+				}
+				if bad != "" {
+					// shorten the run as far as it still fails (halving), keep the structure
+					k := n / len(u)
+					for k > 16 {
+						cand := scheme + pos.pre + strings.Repeat(u, k/2) + pos.post
+						if !fails(cand) {
+							break
+						}
+						k /= 2
+						in = cand
+					}
+					pbt.Fail(t, rec, "parse", c16Case{Input: in}, "ParseURI(%q): %s", truncate(in), why)
+
+					return
+				}
+			}
+		}
+	}
+}
+
 func truncate(s string) string {
 	if len(s) > 200 {
 		return s[:120] + fmt.Sprintf("...(%d bytes)...", len(s)) + s[len(s)-20:]
